@@ -492,8 +492,8 @@ class KafkaCodec(object):
                     MinVersion => int16
                     MaxVersion => int16
         """
-        ((correlation_id, error_code), cur) = relative_unpack(">ii", data, 0)
-        data = data[2:]  # move past correlation_id and error_code
+        # CorrelationId, ErrorCode (int16!) and the ApiVersions array length
+        ((correlation_id, error_code, num_versions), cur) = relative_unpack(">ihi", data, 0)
 
         api_versions = []
 
